@@ -111,7 +111,8 @@ Print Assumptions faults_stay_inside_their_flow.
 Theorem code_facts :
   UDP_TICK_CLOSES_REVERSED_KEY = true /\ UDP_TICK_EXPIRES_IDLE_LONGER_THAN_TIMEOUT = true
   /\ UDP_FAILED_OPEN_FORGETS_FLOW = true /\ UDP_DONE_AND_CLOSE_AS_MODELLED = true
-  /\ UDP_SEND_ERROR_DROPS_DATAGRAM = true /\ UDP_FORWARDER_TABLE_AS_MODELLED = true.
+  /\ UDP_SEND_ERROR_DROPS_DATAGRAM = true /\ UDP_FORWARDER_TABLE_AS_MODELLED = true
+  /\ UDP_READ_ERRORS_REMOVE_THE_FLOW = true.
 Proof. repeat split; exact eq_refl. Qed.
 Print Assumptions code_facts.
 
